@@ -345,6 +345,7 @@ def check_c07(tier):
     if not V.samples:
         V.sample({"note": "see rule"})
     shutil.rmtree(root, ignore_errors=True)
+    replayed += real_eviction(V, 2 if tier == "quick" else 12)
     import tracecheck
     n_ev = tracecheck.validate_random_histories(V, 150 if tier == "quick" else 3000, 14 if tier == "quick" else 18, "c07")
     V.count(n_ev)
@@ -361,3 +362,48 @@ def check_c07(tier):
              "only the edits; non-trivial = an earlier query/close/evict precedes the final query",
         assumptions=["eviction is emulated for a chosen victim through the pub maps exactly as mod.rs:336-343 (the real trigger needs > 2000 files; exercised in the thorough tier)",
                      "close/evict only of documents whose buffer equals the disk content (the statement's 'unmodified document')"])
+
+
+def real_eviction(V, reps):
+    """pressure-driven eviction for real: > 2000 cached files make evict_cache_if_needed drop an arbitrary
+    quarter of file_cache (mod.rs:318-350); every answer must stay what it is without eviction"""
+    root = os.path.join(C.BUILD, "ws", "c07ev-%d" % os.getpid())
+    shutil.rmtree(root, ignore_errors=True)
+    os.makedirs(os.path.join(root, "proj", "sub"), exist_ok=True)
+    os.makedirs(os.path.join(root, "proj", "fill"), exist_ok=True)
+    W = os.path.join(root, "proj")
+    files = {
+        "conftest.py": "import pytest\nfrom .helpers import *\n\n\n@pytest.fixture\ndef top_fx():\n    return 1\n",
+        "helpers.py": "import pytest\n\n\n@pytest.fixture\ndef helper_fx():\n    return 2\n",
+        "sub/conftest.py": "import pytest\n\n\n@pytest.fixture\ndef sub_fx(top_fx):\n    return 3\n",
+        "sub/test_s.py": "def test_s(top_fx, helper_fx, sub_fx):\n    pass\n",
+    }
+    for rel, t in files.items():
+        with open(os.path.join(W, rel), "w") as fh:
+            fh.write(t)
+    for k in range(2100):
+        with open(os.path.join(W, "fill", "test_fill_%d.py" % k), "w") as fh:
+            fh.write("def test_f%d():\n    pass\n" % k)
+    tpath = os.path.join(W, "sub", "test_s.py")
+    q = [{"op": "goto", "path": tpath, "line": 0, "col": 11}, {"op": "goto", "path": tpath, "line": 0, "col": 19},
+         {"op": "goto", "path": tpath, "line": 0, "col": 30}, {"op": "available", "path": tpath},
+         {"op": "imported", "path": os.path.join(W, "conftest.py")}, {"op": "cycles"}, {"op": "snapshot"}]
+    cases = [{"id": i, "ops": [{"op": "scan", "root": W}] + q} for i in range(reps)]
+    want_goto = [("conftest.py", "top_fx"), ("helpers.py", "helper_fx"), ("sub/conftest.py", "sub_fx")]
+    n = 0
+    for res in C.run_harness(cases, threads=2):
+        n += 1
+        V.count()
+        V.nontriv(("eviction", res["id"]))
+        r = res["res"]
+        snap = r[-1]
+        evicted = 2104 - len(snap["cached"]) if isinstance(snap, dict) else None
+        got = [(os.path.relpath(x["file"], W), x["name"]) if isinstance(x, dict) and "file" in x else x for x in r[1:4]]
+        avail = sorted(x["name"] for x in r[4]) if isinstance(r[4], list) else r[4]
+        ex = {"files": list(files), "filler_files": 2100, "evicted_entries": evicted, "goto": got, "available": avail, "imported": r[5]}
+        if evicted is None or evicted <= 0:
+            raise C.ToolError("eviction was not provoked: %r" % evicted)
+        if got != want_goto or avail != ["helper_fx", "sub_fx", "top_fx"] or r[5] != ["helper_fx"]:
+            V.violation(ex, "pressure-driven cache eviction changed an answer")
+    shutil.rmtree(root, ignore_errors=True)
+    return n
